@@ -8,9 +8,6 @@ mod generated {
 mod generated {
     include!(concat!(env!("OUT_DIR"), "/gen_same/mod.rs"));
 }
-#[cfg(feature = "alias")]
+#[cfg(any(feature = "alias", feature = "same"))]
 use generated::*;
-// (public here, so that this probe is about the name clash only, not about the alias re-export)
-#[cfg(feature = "same")]
-pub use generated::*;
 fn main() {}
